@@ -8,6 +8,7 @@ use naijascript::syntax::scanner::Lexer;
 use serde_json::json;
 
 use crate::Ctx;
+use crate::model::ast::{Block, Program, Stmt};
 use crate::model::genp::{self, Profile};
 use crate::model::print::{self, Tok};
 use crate::util::{self, Rng};
@@ -151,6 +152,65 @@ fn valid_program(rng: &mut Rng) -> (String, Vec<Tok>) {
     (print::layout_default(&toks), toks)
 }
 
+/// Statement-level mutation of a valid program: the text stays syntactically valid, but
+/// declarations go missing, appear twice (functions with their bodies too), or change order,
+/// which is what reaches the checker's error paths and the analyses behind them.
+fn mutate_statements(rng: &mut Rng, prog: &mut Program) {
+    fn blocks<'a>(b: &'a mut Block, out: &mut Vec<*mut Block>) {
+        out.push(b as *mut Block);
+        for s in &mut b.stmts {
+            match s {
+                Stmt::If { then_b, else_b, .. } => {
+                    blocks(then_b, out);
+                    if let Some(eb) = else_b {
+                        blocks(eb, out);
+                    }
+                }
+                Stmt::Loop { body, .. } => blocks(body, out),
+                Stmt::Block(b) => blocks(b, out),
+                Stmt::FuncDef(f) => blocks(&mut f.body, out),
+                _ => {}
+            }
+        }
+    }
+    for _ in 0..rng.range(1, 3) {
+        let mut all: Vec<*mut Block> = Vec::new();
+        blocks(&mut prog.body, &mut all);
+        let nonempty: Vec<*mut Block> = all.iter().copied().filter(|b| unsafe { !(**b).stmts.is_empty() }).collect();
+        if nonempty.is_empty() {
+            return;
+        }
+        // SAFETY: the pointers were collected from `prog` just above and exactly one of them is
+        // dereferenced per round, after the collecting borrow has ended.
+        let b: &mut Block = unsafe { &mut **rng.pick(&nonempty) };
+        let i = rng.usize(b.stmts.len());
+        match rng.weighted(&[4, 3, 3, 2]) {
+            0 => {
+                // duplicate (function definitions with their bodies, declarations, loops ...)
+                let st = b.stmts[i].clone();
+                let at = rng.usize(b.stmts.len() + 1);
+                b.stmts.insert(at, st);
+            }
+            1 => {
+                b.stmts.remove(i);
+            }
+            2 => {
+                let j = rng.usize(b.stmts.len());
+                b.stmts.swap(i, j);
+            }
+            _ => {
+                // move into another block
+                let st = b.stmts.remove(i);
+                let mut all2: Vec<*mut Block> = Vec::new();
+                blocks(&mut prog.body, &mut all2);
+                let t: &mut Block = unsafe { &mut **rng.pick(&all2) };
+                let at = rng.usize(t.stmts.len() + 1);
+                t.stmts.insert(at, st);
+            }
+        }
+    }
+}
+
 const JUNK: &[&str] = &["é", "€", "😀", "\u{85}", "\u{a0}", "\0", "\"", "'", "\\", "{", "}", "#", "1.", ".", "\r", "\n", "@", "if", "small", "if to", "1x", "(", ")", "[", "]", ",", "start", "end", "get", "make", "do", "return", "not", "minus"];
 
 fn mutate_tokens(rng: &mut Rng, toks: &[Tok]) -> String {
@@ -273,6 +333,33 @@ pub fn run(ctx: &mut Ctx) {
                     run_one(ctx, idx, &del, "deletion");
                 }
                 run_one(ctx, idx, &src, "whole");
+            }
+        }
+        "S" => {
+            let cells = super::staticck::all_sources();
+            ctx.out.extra.insert("stage_s_size".into(), json!(cells.len()));
+            let batches = cells.len().div_ceil(32) as u64;
+            let idxs: Vec<u64> = ctx.indices().filter(|i| *i < batches).collect();
+            for idx in idxs {
+                ctx.out.begin(idx);
+                let lo = idx as usize * 32;
+                for src in &cells[lo..(lo + 32).min(cells.len())] {
+                    run_one(ctx, idx, src, "static-rule");
+                }
+            }
+        }
+        "M" => {
+            for idx in ctx.indices() {
+                ctx.out.begin(idx);
+                let mut rng = Rng::new(util::case_seed(ctx.seed, "frontM", idx));
+                let profile = *rng.pick(&[Profile::Core, Profile::Scope, Profile::Scope, Profile::Array, Profile::Dead]);
+                let (prog, _) = genp::generate(&mut rng, profile);
+                for _ in 0..8 {
+                    let mut p2 = prog.clone();
+                    mutate_statements(&mut rng, &mut p2);
+                    let src = print::to_source(&p2);
+                    run_one(ctx, idx, &src, "statement-mutation");
+                }
             }
         }
         "C" => {
